@@ -432,11 +432,17 @@ func (vm *VM) execAdd() error {
 		}
 	case StringValue:
 		if bv, ok := b.(StringValue); ok {
+			if len(av.Val)+len(bv.Val) > MaxConcatBytes {
+				return fmt.Errorf("string concatenation result exceeds %d bytes", MaxConcatBytes)
+			}
 			vm.Push(StringValue{Val: av.Val + bv.Val})
 			return nil
 		}
 	case ArrayValue:
 		if bv, ok := b.(ArrayValue); ok {
+			if len(av.Val)+len(bv.Val) > MaxConcatElements {
+				return fmt.Errorf("array concatenation result exceeds %d elements", MaxConcatElements)
+			}
 			// Array concatenation
 			result := make([]Value, len(av.Val)+len(bv.Val))
 			copy(result, av.Val)
@@ -1346,6 +1352,15 @@ func (vm *VM) valuesEqual(a, b Value) bool {
 	}
 	return false
 }
+
+// MaxConcatBytes and MaxConcatElements bound the values `+` may build. A loop
+// such as `s = s + s` doubles its operand every iteration; without a bound a
+// few dozen iterations exhaust the machine's memory long before any step or
+// iteration limit is reached, and the whole process dies.
+const (
+	MaxConcatBytes    = 16 << 20
+	MaxConcatElements = 1 << 20
+)
 
 // maxStackSize is the maximum stack depth to prevent unbounded memory usage.
 const maxStackSize = 10000
